@@ -30,7 +30,6 @@ import (
 	"math/rand"
 	"path/filepath"
 	"sort"
-	"strconv"
 	"strings"
 	"sync"
 
@@ -341,19 +340,11 @@ func (d *drv) represent(doc *docgen.Doc, flags [6]bool) []byte {
 	if err != nil {
 		return doc.Bytes
 	}
-	if flags[3] {
-		// lexical respelling of SINGLE-valued typed leaves (multi-valued ones are the
-		// subject of the single-value replacement oracle)
-		for _, lf := range doc.Leaves {
-			sl, sib, ok := nav(obj, lf.DocPath)
-			if !ok || sib != 1 || hasIndexStep(lf.DocPath) || rng.Intn(2) == 0 {
-				continue
-			}
-			if v, _, ok := spelling(rng, lf.Kind, lf.Fact.Datatype, sl.get()); ok {
-				sl.set(v)
-			}
-		}
-	}
+	// flags[3] (number spellings) acts in the serializer only: native JSON numbers are
+	// written as 5.0 / 5e0 / 50e-1 ...  LEXICAL respellings of typed strings ("5" -> "05")
+	// are not part of the composition: a changed lexical form anywhere in a document
+	// reshuffles URDNA2015's canonical blank-node labels (known finding D21); every leaf gets
+	// its lexical respelling, with classification, in replaceLeaves.
 	if flags[4] {
 		idKey, typeKey := "@id", "@type"
 		if doc.Features["alias"] {
@@ -370,17 +361,6 @@ func (d *drv) represent(doc *docgen.Doc, flags [6]bool) []byte {
 	}
 	s := &ser{rng: rng, keys: flags[0], ws: flags[2], nums: flags[3]}
 	return s.bytes(obj)
-}
-
-// hasIndexStep: some array with >= 2 elements lies on the way to the leaf (then a lexical
-// change can reorder siblings: the leaf's own, or the blank nodes above it).
-func hasIndexStep(path []string) bool {
-	for _, s := range path {
-		if _, err := strconv.Atoi(s); err == nil {
-			return true
-		}
-	}
-	return false
 }
 
 func flagNames(f [6]bool) string {
@@ -596,9 +576,10 @@ func unindexed(entries []string) []string {
 }
 
 // classifySpelling: narrow classes for the ways in which an EQUIVALENT spelling of one
-// typed value is known to change the root.  In all of them an array with >= 2 elements lies
-// on the way to the leaf and the two entry sets agree once the integer indices are dropped
-// from the paths (so no value changed, nothing was lost: only siblings were renumbered).
+// typed value is known to change the root.  In all of them the two entry sets agree once
+// the integer indices are dropped from the paths (so no value changed, nothing was lost:
+// only siblings — the leaf's own, or blank nodes anywhere in the document, whose canonical
+// labels URDNA2015 derives from hashes over the lexical forms — were renumbered).
 //
 //	c03-spelling-sibling-index   the RDF lexical form of the leaf changed ("5" -> "05"):
 //	                             sibling numbering follows lexical forms (N-Quads order of the
@@ -607,13 +588,14 @@ func unindexed(entries []string) []string {
 //	                             copy of a value that is already there (set semantics by
 //	                             lexical form: ["5","05"] are two leaves)
 //	c03-spelling-mixed-duplicate the RDF is the same (native 5 vs "5") but the value occurs
-//	                             twice among its siblings, now in two JSON forms: json-gold
-//	                             hands duplicate quads to URDNA2015, blank nodes are relabelled
+//	                             twice among its siblings and the respelling makes the two JSON
+//	                             forms differ (or agree again): json-gold hands the duplicate
+//	                             quad to URDNA2015, blank nodes are relabelled
 //
 // Everything else (a value changed, an entry lost, no array involved) is the generic
 // c03-spelling.
 func classifySpelling(base, o *obs, lf docgen.Leaf, siblings int, lexical, duplicate bool) string {
-	if !hasIndexStep(lf.DocPath) || o.Class != "ok" || base.Class != "ok" {
+	if o.Class != "ok" || base.Class != "ok" {
 		return "c03-spelling"
 	}
 	b, v := unindexed(base.Entries), unindexed(o.Entries)
@@ -650,14 +632,22 @@ func classifySpelling(base, o *obs, lf docgen.Leaf, siblings int, lexical, dupli
 	return "c03-spelling"
 }
 
-// duplicated: the leaf's raw value occurs at least twice in the array holding it.
-func duplicated(sl slot) bool {
-	if sl.a == nil {
-		return false
-	}
+// duplicated: the leaf's VALUE occurs at least twice among its siblings (same array), in
+// whatever JSON forms ("5" and 5, false and "false").
+func duplicated(doc *docgen.Doc, lf docgen.Leaf) bool {
 	n := 0
-	for _, e := range sl.a {
-		if jsonOf(e) == jsonOf(sl.a[sl.idx]) {
+	for _, o := range doc.Leaves {
+		if len(o.DocPath) != len(lf.DocPath) || o.Fact.Value != lf.Fact.Value || o.Fact.Datatype != lf.Fact.Datatype {
+			continue
+		}
+		same := true
+		for i := 0; i < len(lf.DocPath)-1; i++ {
+			if o.DocPath[i] != lf.DocPath[i] {
+				same = false
+				break
+			}
+		}
+		if same {
 			n++
 		}
 	}
@@ -696,7 +686,7 @@ func (d *drv) replaceLeaves(doc *docgen.Doc, hi int, base *obs) {
 		// (ii) equivalent spelling -> same root
 		obj, _ = parseDoc(doc.Bytes)
 		sl, sib, ok = nav(obj, lf.DocPath)
-		dup := ok && duplicated(sl)
+		dup := ok && sib >= 2 && duplicated(doc, lf)
 		if nv, lexical, ok := spelling(rng, lf.Kind, lf.Fact.Datatype, sl.get()); ok {
 			sl.set(nv)
 			v, _ := json.Marshal(obj)
@@ -1249,7 +1239,7 @@ func Run(cfg *common.Config) (*common.Report, error) {
 		jobs = append(jobs, job)
 	}
 	g := docgen.New(cfg.Rng)
-	nDocs := cfg.Pick(36, 600)
+	nDocs := cfg.Pick(36, 400)
 	for i := 0; i < nDocs; i++ {
 		doc := g.Valid(1 + cfg.Rng.Intn(3))
 		for u, b := range g.CtxURLs {
@@ -1262,7 +1252,7 @@ func Run(cfg *common.Config) (*common.Report, error) {
 			hi = 1
 		}
 		n := 50
-		if cfg.Thorough() && i < 100 {
+		if cfg.Thorough() && i < 80 {
 			n = 1000
 		}
 		add(func(t *drv) { t.docCase(doc, hi, n) })
@@ -1275,7 +1265,7 @@ func Run(cfg *common.Config) (*common.Report, error) {
 			add(func(t *drv) { t.docCase(doc, hi, 50) })
 		}
 	}
-	for i := 0; i < cfg.Pick(16, 250); i++ {
+	for i := 0; i < cfg.Pick(16, 150); i++ {
 		n := 50
 		if cfg.Thorough() && i < 30 {
 			n = 1000
@@ -1283,7 +1273,7 @@ func Run(cfg *common.Config) (*common.Report, error) {
 		hi := i % 2
 		add(func(t *drv) { t.docCase(t.multiGraphDoc(), hi, n) })
 	}
-	for i := 0; i < cfg.Pick(60, 1200); i++ {
+	for i := 0; i < cfg.Pick(60, 800); i++ {
 		add(func(t *drv) {
 			ds, kind := t.rawDataset()
 			t.rep.Count("raw:" + kind)
